@@ -95,7 +95,8 @@ func TestAnchorTokenDerivation(t *testing.T) {
 }
 
 type tokCase struct {
-	Before, After int  `json:"before,after"`
+	Before      int  `json:"before"`
+	After       int  `json:"after"`
 	WrongDigest   bool `json:"wrong_digest"`
 	LowPriv       bool `json:"low_priv"`
 	Disclosed     []string `json:"disclosed"`
@@ -137,9 +138,9 @@ func collectRTSP(sh *shard, wrongDigest bool, knownUser string) (ids []string, c
 }
 
 func TestTokenUnpredictable(t *testing.T) {
-	sh := newShard(t, 95)
+	sh := newShard(t, 905)
 	evid.Rule("token unpredictability: an unauthenticated client (and optionally a low-privilege user) opens 1..4 connections before and 0..3 after an administrator's login, collects RTSP Session ids, digest nonces (also the fresh one after a refused digest), its own tokens, ws-rtsp Session ids, WSP channel ids and the start time of GET /api/v1/server, decodes them to counter values and offers MD5(uvarint(c+d)), |d|<=64, as access token to GET /api/v1/users and as refresh token to GET /api/v1/refreshtoken")
-	low := "t95low"
+	low := "t905low"
 	srv.SaveUser(low, "pw", false, sh.live[0], "")
 	defer srv.DelUser(low)
 	evid.Checks(12, 120)
